@@ -45,8 +45,9 @@ var (
 )
 
 func init() {
-	cvxMakeProxy = func(w *cvxWorld, pc config.Proxy, accessLog bool) http.Handler {
-		cfg := &config.Config{Proxy: pc, GlobCacheSize: 1000}
+	cvxMakeProxy = func(w *cvxWorld, o cvxWire) http.Handler {
+		pc, accessLog := o.cfg, o.accessLog
+		cfg := &config.Config{Proxy: pc, GlobCacheSize: 1000, GlobMatchingDisabled: o.noGlob}
 		cfg.Proxy.Strategy = "rnd"
 		cfg.Proxy.Matcher = "prefix"
 		if accessLog {
